@@ -78,31 +78,57 @@ theorem addMissingLoop_spec (known : List Imp) (all : List (Nat × Str)) (st st'
             subst hl
             exact b _ (hadd _ hin)
           · exact c m' hm' i hl
-      · obtain ⟨st1, h1, h2⟩ := bind_ok h
-        obtain ⟨hin, hmono, hback⟩ := addImport_adds st st1 imp _ h1
-        have hadd' : ∀ i ∈ imp :: added, i ∈ allImports st1.blocks := by
-          intro i hi
-          simp at hi
-          rcases hi with rfl | hi
-          · exact hin
-          · exact hmono _ (hadd _ hi)
-        obtain ⟨a, b, c⟩ := ih st1 (imp :: added) h2 hadd'
-        refine ⟨?_, fun i hi => b _ (hmono _ hi), ?_⟩
-        · intro i hi
-          rcases a i hi with h1' | ⟨m', hm', hl⟩
-          · rcases hback i h1' with rfl | h3
-            · exact Or.inr ⟨(ln, name), by simp, hk⟩
-            · exact Or.inl h3
-          · exact Or.inr ⟨m', by simp [hm'], hl⟩
-        · intro m' hm' i hl
-          simp at hm'
-          rcases hm' with rfl | hm'
-          · simp only [] at hl
-            rw [hk] at hl
-            simp at hl
-            subst hl
-            exact b _ hin
-          · exact c m' hm' i hl
+      · split at h
+        · rename_i st1 h1
+          have h2 := h
+          obtain ⟨hin, hmono, hback⟩ := addImport_adds st st1 imp _ h1
+          have hadd' : ∀ i ∈ imp :: added, i ∈ allImports st1.blocks := by
+            intro i hi
+            simp at hi
+            rcases hi with rfl | hi
+            · exact hin
+            · exact hmono _ (hadd _ hi)
+          obtain ⟨a, b, c⟩ := ih st1 (imp :: added) h2 hadd'
+          refine ⟨?_, fun i hi => b _ (hmono _ hi), ?_⟩
+          · intro i hi
+            rcases a i hi with h1' | ⟨m', hm', hl⟩
+            · rcases hback i h1' with rfl | h3
+              · exact Or.inr ⟨(ln, name), by simp, hk⟩
+              · exact Or.inl h3
+            · exact Or.inr ⟨m', by simp [hm'], hl⟩
+          · intro m' hm' i hl
+            simp at hm'
+            rcases hm' with rfl | hm'
+            · simp only [] at hl
+              rw [hk] at hl
+              simp at hl
+              subst hl
+              exact b _ hin
+            · exact c m' hm' i hl
+        · rename_i h1
+          have hin : imp ∈ allImports st.blocks := addImport_exists_mem st imp _ _ h1
+          have hadd' : ∀ i ∈ imp :: added, i ∈ allImports st.blocks := by
+            intro i hi
+            simp at hi
+            rcases hi with rfl | hi
+            · exact hin
+            · exact hadd _ hi
+          obtain ⟨a, b, c⟩ := ih st (imp :: added) h hadd'
+          refine ⟨?_, b, ?_⟩
+          · intro i hi
+            rcases a i hi with h1' | ⟨m', hm', hl⟩
+            · exact Or.inl h1'
+            · exact Or.inr ⟨m', by simp [hm'], hl⟩
+          · intro m' hm' i hl
+            simp at hm'
+            rcases hm' with rfl | hm'
+            · simp only [] at hl
+              rw [hk] at hl
+              simp at hl
+              subst hl
+              exact b _ hin
+            · exact c m' hm' i hl
+        · cases h
     · rename_i hk
       obtain ⟨a, b, c⟩ := ih st added h hadd
       refine ⟨?_, b, ?_⟩
